@@ -69,6 +69,7 @@ impl<const BASE: Word> Repr<BASE> {
     // (0 for a zero significand).
     #[verifier::external_body]
     pub fn digits_lb(&self) -> (r: usize)
+        requires BASE >= 2, !(self.significand.v() == 0 && self.exponent != 0)      // assert_finite
         ensures r <= ndigits(BASE as int, self.significand.v()),
             self.significand.v() != 0 ==> r < ndigits(BASE as int, self.significand.v()),
             self.significand.v() == 0 ==> r == 0,
